@@ -194,6 +194,15 @@ def shard(ctx):
                 line = rng.choice(b["body"])
                 line.insert(rng.randrange(len(line) + 1), gen.clause([["this"]], "empty", None, opneg=rng.random() < 0.5))
                 ctx.res.counts["bases_with_error_prone_alternative"] += 1
+        if rng.random() < 0.35:
+            # a clause that SKIPs for every element (it compares an empty selection) as an extra line of the filters: a conjunction ignores
+            # SKIP lines wherever they stand, so the selection must not depend on the position of that line
+            filters = [cnf for kind, cnf in gen.iter_cnfs(f) if kind == "filter"]
+            if filters:
+                f["lets"] = list(f["lets"]) + [["zznone", ["somequery", [["key", "zz_nokey"]]]]]
+                for cnf in filters:
+                    cnf.insert(rng.randrange(len(cnf) + 1), [gen.clause([["var", "zznone"]], "==", ["lit", 1])])
+                ctx.res.counts["bases_with_skipping_filter_line"] += 1
         docs = [json.dumps(doc)]
         for _ in range(1 if ctx.quick else 2):
             docs.append(json.dumps(gen.gen_doc(rng)))
